@@ -216,6 +216,9 @@ class Decimal(SimpleModel):
         attrs = cls.Attributes
         try:
             # an infinite bound is no bound: it must not reject INF, nor NaN
+            if isinstance(value, decimal.Decimal) and not value.is_finite():
+                return False  # xs:decimal has neither infinities nor NaN
+
             return SimpleModel.validate_native(cls, value) and (
                 value is None or (
                     (attrs.gt == _NINF or value >  attrs.gt) and
